@@ -13,7 +13,7 @@ from ..harness import Clause, HarnessError, Prop, require
 from ..oracles import (CONFIGS, METRICS, achievable_range, rate_frac, ref_cm, relevant_scores,
                        ulp_step)
 
-MODES = ("grid", "grid", "dyadic", "distinct", "float", "int")
+MODES = ("grid", "grid", "dyadic", "distinct", "float", "int", "uint")
 METHODS = ("linear", "lower", "higher")
 
 
@@ -39,7 +39,7 @@ def _high_targets():
 
 @st.composite
 def _cases(draw):
-    s = draw(gen.score_sets(max_size=8, modes=MODES, mag=1e6, containers=("f64", "f64", "f32", "list", "neg-int", "pos-int", "neg-f32")))
+    s = draw(gen.score_sets(max_size=8, modes=MODES, mag=1e6, containers=("f64", "f64", "f32", "list", "neg-int", "pos-int", "neg-f32", "f128")))
     lows = draw(st.lists(_low_targets(), min_size=1, max_size=2))
     highs = draw(st.lists(_high_targets(), min_size=1, max_size=2))
     interior = draw(st.lists(st.floats(min_value=0.01, max_value=0.99), min_size=0, max_size=2))
@@ -47,12 +47,12 @@ def _cases(draw):
     return dict(s=s, targets=list(mix), scalar_idx=draw(st.integers(0, len(mix) - 1)))
 
 
-def _check_obj(s, targets, scalar_idx, tag=""):
+def _check_obj(s, targets, scalar_idx, tag="", int_array=False):
     from score_analysis import Scores
 
     pos, neg, ep, en = s["pos"], s["neg"], s["ep"], s["en"]
     dt = int if s.get("mode") == "int" else float
-    rs = np.asarray(targets, dtype=float)
+    rs = np.asarray(targets, dtype=int if int_array else float)
     for m in METRICS:
         if not relevant_scores(m, pos, neg):
             continue
@@ -83,6 +83,8 @@ def _check_obj(s, targets, scalar_idx, tag=""):
                                         f"({hi})")
                 # scalar call at one of the targets
                 r = float(targets[scalar_idx])
+                if r == int(r) and abs(r) < 1e6:
+                    r = int(r)  # 0, 1, -1, 2 ... as the caller would write them
                 if r <= 0 or r >= 1:
                     ts = th(r, method=meth)
                     vs = float(f(ts))
@@ -95,6 +97,8 @@ def _check_obj(s, targets, scalar_idx, tag=""):
 def check(case):
     s = case["s"]
     _check_obj(s, case["targets"], case["scalar_idx"])
+    # the two extreme targets written as an integer array
+    _check_obj(s, [0, 1, -1, 2], case["scalar_idx"] % 4, tag="integer targets: ", int_array=True)
     labels = [f"mode:{s['mode']}"]
     if s["ep"] or s["en"]:
         labels.append("easy")
@@ -144,4 +148,4 @@ PROP = Prop(
     assumptions=["'moderate magnitude' is taken as |score| <= 1e6"],
 )
 
-RULE_EXTRA = ('score containers as in C02; one target array object re-used across all calls of a case, expectations taken from the pristine target list.')
+RULE_EXTRA = ('score containers as in C02 (incl. uint8/uint16/bool and long double); integral targets written as Python ints and as an integer array; one target array object re-used across all calls of a case, expectations taken from the pristine target list.')
